@@ -112,7 +112,7 @@ def ofRegion (r : Region) : Json :=
 def jCfg (j : Json) : Except String Cfg :=
   match j.getObjVal? "cfg" with
   | .ok c => do
-    pure ⟨← fBool c "skip", ← fBool c "includeInt", ← fBool c "orderedGlobal", ← fBool c "textVerbatim"⟩
+    pure ⟨← fBool c "skip", ← fBool c "includeInt", ← fBool c "orderedGlobal"⟩
   | .error _ => pure codeCfg
 
 def ofExceptRegions : Except String (List Region) → Json
@@ -122,8 +122,7 @@ def ofExceptRegions : Except String (List Region) → Json
 def c09Ops : List (String × Handler) := [
   ("ds9.cfg", fun _ =>
     pure (Json.mkObj [("skip", Json.bool codeCfg.skip), ("includeInt", Json.bool codeCfg.includeInt),
-                      ("orderedGlobal", Json.bool codeCfg.orderedGlobal),
-                      ("textVerbatim", Json.bool codeCfg.textVerbatim)])),
+                      ("orderedGlobal", Json.bool codeCfg.orderedGlobal)])),
   -- serialize: model text, per-line exact values (for the by-value comparison of astropy numbers),
   -- skip count, and the executable instance of `lex (render o) = toRaw o`
   ("ds9.serialize", fun j => do
@@ -150,11 +149,10 @@ def c09Ops : List (String × Handler) := [
                           | some o => renderSafe o))])),
   -- parse a text: lex, then the structured reader
   ("ds9.parse", fun j => do
-    let cfg ← jCfg j
     let text := (← fStr j "text").toList
     match lex text with
     | .error e => pure (Json.mkObj [("err", Json.str e), ("stage", Json.str "lex")])
-    | .ok o => pure (ofExceptRegions (parse cfg o))),
+    | .ok o => pure (ofExceptRegions (parse o))),
   -- structured round trip parse (toRaw (serialize rs))
   ("ds9.roundtrip", fun j => do
     let cfg ← jCfg j
